@@ -45,6 +45,8 @@ def cases(draw):
                                     min_size=1, max_size=4)),
             "val": draw(gen.nondefault_values(default)),
             "sp": draw(st.one_of(st.none(), st.integers(0, 8))),
+            # the destination's (top) rank may be declared uncompressed as well
+            "zfmtU": draw(st.sampled_from([False, False, False, False, True])),
             # an uncompressed source may carry an active range narrower than its shape (a tile of a split rank):
             # it presents that range; all its elements lie inside
             "aact": draw(st.sampled_from([None, None, [draw(st.integers(0, 6)), draw(st.integers(0, 6))]]))}
@@ -64,6 +66,9 @@ def check(case, rec):
     d, default, shape = model.depth(zs), zs["default"], zs["shape"]
     m = machine.Machine(zs, case["zhow"])
     z = m.root
+    if case.get("zfmtU") and m.owned:
+        m.t.setFormat(zs["rank_ids"][0], "U")
+        rec.cls("destination-U")
     adefault = as_["default"]
     if case["ahow"] in ("unowned", "unowned-U"):
         a_t, a = None, build.build_fiber(as_, name_ranks=True)
